@@ -870,7 +870,7 @@ def run_obligation(ob, seed=0, tier="quick", collect_functions=True):
                 ext_vals = None
                 if r != "unsat" and (p.monos or any(d[1] is not None for d in p.defs)):
                     r, ext_vals = external_check(_base_constraints(ob, p, assume_f) + _exact_constraints(p, set(p.monos)),
-                                                 [n for n, _, _, _ in ob.inputs], min(30.0, ob.exact_timeout_ms / 1000.0))
+                                                 [n for n, _, _, _ in ob.inputs], min(180.0, ob.exact_timeout_ms / 1000.0))
                     pv.queries += 1
                 if r == "unsat":
                     pv.status = "holds"
